@@ -317,8 +317,31 @@ func (P *Program) rootOf(v ssa.Value, it map[*ssa.Function]bool, seen map[ssa.Va
 		if bi, ok := x.Call.Value.(*ssa.Builtin); ok && bi.Name() == "append" {
 			return P.rootOf(x.Call.Args[0], it, seen)
 		}
+		// what a library method hands out of a process-wide object
+		// (sync.Pool.Get, sync.Map.Load, list.Front ...) is process-wide state
+		if callee := x.Call.StaticCallee(); callee != nil && (callee.Pkg == nil || !inModule(callee.Pkg.Pkg)) &&
+			callee.Signature.Recv() != nil && len(x.Call.Args) > 0 && refLike(x.Type()) {
+			if r := P.rootOf(x.Call.Args[0], it, seen); r.kind == rGlobal {
+				return r
+			}
+		}
 	}
 	return rootInfo{kind: rLocal}
+}
+
+// refLike: a value through which memory can be reached.
+func refLike(t types.Type) bool {
+	switch u := t.Underlying().(type) {
+	case *types.Pointer, *types.Interface, *types.Slice, *types.Map:
+		return true
+	case *types.Tuple:
+		for i := 0; i < u.Len(); i++ {
+			if refLike(u.At(i).Type()) {
+				return true
+			}
+		}
+	}
+	return false
 }
 
 func funcKeyAnon(fn *ssa.Function) string {
